@@ -71,7 +71,7 @@ def spawn(plans, hashseed, lines=False, setarch=False):
         cmd = ['setarch', 'x86_64', '-R'] + cmd
     p = subprocess.Popen(cmd, stdin=subprocess.PIPE, stdout=subprocess.PIPE, stderr=subprocess.PIPE,
                          env=env, cwd=core.VERIF_DIR)
-    p.stdin.write(json.dumps({'plans': plans, 'lines': lines, 'props': []}).encode())
+    p.stdin.write(json.dumps({'plans': plans, 'lines': lines, 'props': ['C17']}).encode())
     p.stdin.close()
     return p
 
